@@ -101,7 +101,8 @@ Proof.
   intros Hplain Hpol Hsub Hcompl Hplan Hval x.
   destruct rn as [a k h q d c p run]. destruct g as [tr cbn0 plan val up bad]. cbn in Hplan, Hval. subst plan.
   unfold mexec_row, x. cbn [tgt_state r_tgt r_src r_exitpt r_guard r_act r_id tgt_ekind].
-  unfold mrun_guard, guard_value, mexec_exit, mexec_entry, mrun_action, on_state_entry_completed.
+  unfold bind at 1. unfold get at 1. cbn beta iota.
+  unfold mrun_guard, guard_value, mexec_exit, mexec_entry, mexec_entry_gen, mrun_action, on_state_entry_completed.
   cbn [r_guard r_id r_act].
   rewrite !mchild_none, Hsub, Hcompl.
   unfold plain_state in Hplain.
